@@ -438,11 +438,14 @@ class Joiner:
                     diffsyms.append(s_)
                     if len(diffsyms) >= 6:
                         break
+        def is_len(p_):
+            return tuple(self.phi_path.get(p_, ()))[-1:] == ("len",)
+
         if diffsyms:
             # only phis whose two values actually differ are worth relating to them
-            ints = [(p, a, b) for p, a, b in ints if interesting(A, a, fa) or interesting(B, b, fb) or (A.ivof(a) != B.ivof(b) and D.size(A.ivof(a)) <= 4 and D.size(B.ivof(b)) <= 4)]
+            ints = [(p, a, b) for p, a, b in ints if is_len(p) or interesting(A, a, fa) or interesting(B, b, fb) or (A.ivof(a) != B.ivof(b) and D.size(A.ivof(a)) <= 4 and D.size(B.ivof(b)) <= 4)]
         else:
-            ints = [(p, a, b) for p, a, b in ints if interesting(A, a, fa) or interesting(B, b, fb)]
+            ints = [(p, a, b) for p, a, b in ints if is_len(p) or interesting(A, a, fa) or interesting(B, b, fb)]
         many = len(ints) > 12
         for p, a, b in ints[:24]:
             cands = (related(A, a) | related(B, b) | {a, b} | set(diffsyms)) - phi_ids - stale
@@ -473,7 +476,7 @@ class Joiner:
                 # keeps p + q equal to a term K over symbols both sides share
                 ka, kb = A.term(pa).add(A.term(qa)), B.term(pb).add(B.term(qb))
                 for K, Y, ky in ((ka, B, kb), (kb, A, ka)):
-                    if not K.t or any((t in phi_ids or t in stale or isinstance(t, tuple) or t not in A.iv or t not in B.iv or A.term(t) != Lin.var(t) or B.term(t) != Lin.var(t)) for t in K.t):
+                    if any((t in phi_ids or t in stale or isinstance(t, tuple) or t not in A.iv or t not in B.iv or A.term(t) != Lin.var(t) or B.term(t) != Lin.var(t)) for t in K.t):
                         continue
                     d_ = ky.sub(K)
                     if (not d_.t and d_.c == 0) or (Y.entails(d_, False) and Y.entails(d_.scale(-1), False)):
